@@ -1,0 +1,18 @@
+//go:build verif
+
+package build
+
+import (
+	"os"
+
+	"github.com/goplus/llgo/internal/optlevel"
+)
+
+// verifPipeline lets the verification harness replace the LLVM pass pipeline of the
+// optimising levels (LLVM 14 cannot run the full default<O2> on opaque pointers).
+func verifPipeline(level optlevel.Level) string {
+	if level == optlevel.O0 {
+		return ""
+	}
+	return os.Getenv("LLGO_VERIF_PASSES")
+}
